@@ -719,3 +719,20 @@ Proof.
       [discriminate|apply word_lt_free; reflexivity|apply word_gt_free; reflexivity]. }
   split; [exact C|]. intros j c. apply rescan_finds_nothing. exact C.
 Qed.
+
+Lemma check_page_sound t tbl d tail ph toks fin :
+  check_page (t, tbl, (d, tail), ph, toks, fin) = true ->
+  clean (doc_text d tail) /\ Forall wf_part (doc_parts d) /\
+  exists pd pt, doc_text d tail = phdoc_bytes pd pt /\ ph_clean (phdoc_text pd pt) /\ ph_pieces_ok pd pt.
+Proof.
+  unfold check_page, page_diag. destruct toks as [js css]. destruct fin as [[js_s css_s] final].
+  destruct (page_hyp_emit d tail) eqn:E1; [|intro H; apply N.eqb_eq in H; exfalso; lia].
+  destruct (page_hyp_ph (doc_text d tail) ph) eqn:E2; [|intro H; apply N.eqb_eq in H; exfalso; lia].
+  intros _. unfold page_hyp_emit in E1. apply andb_true_iff in E1 as [E1 E1'].
+  split; [unfold clean; apply negb_true_iff; exact E1|]. split.
+  { apply Forall_forall. intros p Hp. apply wf_partb_spec. rewrite forallb_forall in E1'. apply E1'. exact Hp. }
+  unfold page_hyp_ph in E2. destruct ph as [[pd pt]|].
+  - exists pd, pt. apply check_phdoc_sound. exact E2.
+  - exists [], (doc_text d tail). unfold ph_cleanb in E2. apply negb_true_iff in E2.
+    split; [reflexivity|]. split; [exact E2|]. split; [constructor|exact E2].
+Qed.
